@@ -6,6 +6,7 @@ import (
 
 	"github.com/gofiber/fiber/v3"
 	"github.com/gofiber/fiber/v3/middleware/limiter"
+	"github.com/gofiber/utils/v2"
 )
 
 // F12 (C13): the sliding window ignored MaxFunc.
@@ -38,5 +39,48 @@ func TestF22_LimiterDefaultConfigServesRequests(t *testing.T) {
 	rc := do(app, "GET", "/")
 	if rc.Response.StatusCode() != 200 {
 		t.Fatalf("status %d", rc.Response.StatusCode())
+	}
+}
+
+func waitTick() uint32 {
+	utils.StartTimeStampUpdater()
+	a := utils.Timestamp()
+	for utils.Timestamp() == a {
+		time.Sleep(time.Millisecond)
+	}
+	return utils.Timestamp()
+}
+
+// F23: the skip path of the sliding window re-stored the entry with the plain expiration as TTL;
+// the entry then vanished at the end of the window and the previous window's hits no longer counted.
+func TestF23_SlidingWindowSkipPathKeepsPreviousWindow(t *testing.T) {
+	app := fiber.New()
+	app.Use(limiter.New(limiter.Config{Max: 5, Expiration: 2 * time.Second, SkipFailedRequests: true, LimiterMiddleware: limiter.SlidingWindow{}}))
+	app.Get("/:s", func(c fiber.Ctx) error {
+		if c.Params("s") == "fail" {
+			return c.SendStatus(400)
+		}
+		return c.SendStatus(200)
+	})
+	t0 := waitTick()
+	for i := 0; i < 4; i++ {
+		if do(app, "GET", "/ok").Response.StatusCode() != 200 {
+			t.Fatal("setup")
+		}
+	}
+	if do(app, "GET", "/fail").Response.StatusCode() != 400 {
+		t.Fatal("setup fail")
+	}
+	for utils.Timestamp() < t0+2 {
+		time.Sleep(time.Millisecond)
+	}
+	admitted := 0
+	for i := 0; i < 5; i++ {
+		if do(app, "GET", "/ok").Response.StatusCode() == 200 {
+			admitted++
+		}
+	}
+	if admitted > 3 {
+		t.Errorf("previous window had 4 hits, Max 5: %d admitted right at the window edge (the sliding window allows at most 3)", admitted)
 	}
 }
